@@ -21,9 +21,10 @@ import (
 )
 
 type Bins struct {
-	Bin     string
-	RaceBin string
-	Sources map[string][]byte
+	Bin        string
+	RaceBin    string
+	Sources    map[string][]byte
+	TimeoutSec int // -test.timeout of a lifetime (default 25); the watchdog is 35 s above it
 }
 
 type Result struct {
@@ -78,9 +79,16 @@ func Run(b *Bins, root, side string, l *scen.Lifetime, idx int) (*Result, error)
 		}
 		bin = b.RaceBin
 	}
-	args := []string{"-test.count=" + strconv.Itoa(max(1, l.Count)), "-test.timeout=25s"}
+	tmo := b.TimeoutSec
+	if tmo <= 0 {
+		tmo = 25
+	}
+	args := []string{"-test.count=" + strconv.Itoa(max(1, l.Count)), "-test.timeout=" + strconv.Itoa(tmo) + "s"}
 	if l.Run != "" {
 		args = append(args, "-test.run="+l.Run)
+	}
+	if l.Shuffle > 0 && l.Mode == "runner" {
+		args = append(args, "-test.shuffle="+strconv.Itoa(l.Shuffle))
 	}
 	cmd := exec.Command(bin, args...)
 	cmd.Dir = root // real cwd is irrelevant to the library (Getwd is shimmed)
@@ -108,7 +116,7 @@ func Run(b *Bins, root, side string, l *scen.Lifetime, idx int) (*Result, error)
 	res := &Result{}
 	select {
 	case err = <-done:
-	case <-time.After(60 * time.Second):
+	case <-time.After(time.Duration(tmo+35) * time.Second):
 		cmd.Process.Kill()
 		<-done
 		res.Timeout = true
